@@ -103,7 +103,20 @@ def case(ctx, i, rec):
             ts, r = zoo.sim(rng)
     if ts.num_mutations == 0:
         ts, r = zoo.sim(rng)
-    if k1 == "monomorphic" and rng.random() < 0.7:
+    unary = False
+    if k1 != "migrations" and i % 4 == 3:
+        # inputs that keep unary nodes, dated with allow_unary=True: the discrete methods then build
+        # their prior from a second, internally simplified copy of the input
+        full, r = zoo.sim(rng, n=int(rng.integers(5, 12)), L=1e3, mut_per_edge=3.0,
+                          rec=float(rng.choice([4.0, 12.0])) / (4 * 100.0 * 1e3), Ne=100.0)
+        sub = np.sort(rng.choice(full.samples(), size=max(2, full.num_samples // 2), replace=False))
+        cand = full.simplify(sub, keep_unary=True)
+        if cand.num_mutations > 0 and (method == "variational_gamma" or common.discrete_ok(cand)):
+            ts, unary = cand, True
+            r["gen"] = "kept_unary"
+            if rng.random() < 0.6:
+                k2 = "site_edge_md"
+    if k1 == "monomorphic" and rng.random() < 0.7 and not unary:
         # several mutations per site on a multi-tree input, so that counts of sites and
         # mutations can coincide after monomorphic sites are added
         ts, r = zoo.sim(rng, n=int(rng.integers(4, 10)), L=1e3, mut_per_edge=float(rng.choice([1.0, 3.0])))
@@ -117,6 +130,9 @@ def case(ctx, i, rec):
     else:
         kw["population_size"] = r.get("Ne", 100.0)
         kw["probability_space"] = str(rng.choice(["linear", "logarithmic"]))
+    if unary:
+        kw["allow_unary"] = True
+        rec.count("inputs_with_unary_nodes")
     ts2 = perturb(perturb(ts, k1, rng), k2, rng)
     a = pairs.run(ts, method, kw)
     rec.sig = zoo.ts_sig(ts, method, k1, k2)
